@@ -171,6 +171,9 @@ static void enumerate_unit(const nmc::Tier& t, const nmc::Sink& emit) {
         if (sel) for (long H = 1; H <= E2; H++) for (long W = 1; W <= E2; W++) grid(2, C, O, g, H, W, false, 3, false);
     });
     if (T) for (long H = 1; H <= 5; H++) for (long W = 1; W <= 5; W++) { grid(1, 1, 1, 1, H, W, true, 1, false); grid(1, 2, 2, 2, H, W, true, 2, false); }
+    // quick tier: a small per-axis sub-grid as well (every (sh,sw,ph,pw,dh,dw) with unequal entries on three input sizes) - a seeded change that swapped the
+    // per-axis STRIDE order was invisible to a quick tier that only used equal per-axis arguments
+    else { grid(1, 1, 1, 1, 3, 4, true, 1, false); grid(1, 1, 1, 1, 4, 3, true, 1, false); grid(1, 2, 2, 2, 5, 5, true, 2, false); }
 }
 static Outcome execute_unit(const Case& c) {
     long B = c.a[0][0], C = c.a[0][1], O = c.a[0][2], g = c.a[0][3]; int G = (int)g; bool bias = c.a[6][0] != 0; long form = c.a[6][1];
@@ -245,7 +248,7 @@ static std::string pool_shape_note(const Obs& o, const RArr& x, const L& k, cons
 }
 static Outcome execute_unit(const Case& c) {
     const L& s = c.a[0]; const L& k = c.a[1]; const L& st = c.a[2]; bool ceil = c.a[3][0] != 0; bool is_max = c.op == "maxpool";
-    RArr x = scrambled(s);
+    RArr x = scrambled(s, 1.0, -154.0);      // values on both sides of zero: a max-pool that folds from an initial 0 is wrong for all-negative windows (missed with positive-only data)
     ROpt want = ref::pool2d(x, k, st, ceil, is_max);
     if (!want) return Outcome::bad("wrong", "harness: case outside the domain was enumerated");
     bool nt = want->size() >= 2 || std::min(k[0], s[s.size() - 2]) * std::min(k[1], s[s.size() - 1]) >= 2;
